@@ -10,7 +10,7 @@ RULE = ("random multi-script fonts (6-14 glyphs from Latin, Cyrillic, Greek, Ara
         "Arabic-Indic, punctuation, unencoded alternates reached through GSUB, GDEF marks) x disjoint kern1/kern2 groups (with "
         "missing members) x kerning dictionaries with glyph and group keys, exceptions at every precedence level, zero / "
         "fractional / negative / tie values, references to missing glyphs x languagesystem statements x quantisation {1,5,10} "
-        "x both kern writers (one case in five: the same writer instance then serves one or two other fonts); the compiled GPOS/GDEF is dumped structurally and TLC evaluates EVERY (script, language, glyph, "
+        "x both kern writers, also on the variable-features path with per-master kerning (one case in five: the same writer instance then serves one or two other fonts); the compiled GPOS/GDEF is dumped structurally and TLC evaluates EVERY (script, language, glyph, "
         "glyph) triple; non-trivial = the font has at least one non-zero expected pair; distinct by source digest")
 ASSUMPTIONS = ["OpenType semantics per the OpenType specification (first deciding subtable ends a lookup)",
                "glyph script / bidi classification recomputed independently from Unicode data + GSUB closure",
@@ -45,10 +45,38 @@ def cases(tier, seed):
                 d.update({"cid": f"c05-{seed}-{k}+{j + 1}", "lib": c["lib"], "writers": ["kern"], "q": c.get("q", 1), "kernOpts": c.get("kernOpts")})
                 c["then"].append(d)
         out.append(c)
+    # the variable-font path of both writers: per-master kerning (pairs and exceptions present in some masters only), read
+    # back at every master location
+    from .. import gen
+
+    for k in range(8 if tier == "quick" else 80):
+        fam = gen.rich_family(rng, n_masters=rng.choice([2, 3]))
+        # an exception (glyph-glyph or glyph-group) that one master lacks: there the pair falls back to the group value
+        excs = [("V", "o"), ("o", "A"), ("e", "public.kern2.A")]
+        m = rng.choice(fam["masters"])
+        kern = m["ufo"].get("kerning", [])
+        if len(kern) > 3:
+            drop = rng.choice(excs)
+            m["ufo"]["kerning"] = [e for e in kern if (e[0], e[1]) != drop]
+        out.append({"cid": f"c05-{seed}-v{k}", "var": True, "lib": rng.choice(["ufoLib2", "defcon"]),
+                    "fam": fam, "flavor": rng.choice(["tt", "cff2"]),
+                    "varFeatures": True, "prodNames": False, "kern2": k % 2 == 0, "writer": "kern2" if k % 2 == 0 else "kern1"})
     return out
 
 
 def execute(case):
+    if case.get("var"):
+        from . import c10
+
+        recs = []
+        for r in c10.execute(case):
+            if r.get("_acc") == "kern":
+                r = {k: v for k, v in r.items() if k != "_acc"}
+                r["_writer"] = case["writer"]
+                recs.append(r)
+            elif r.get("err"):
+                raise RuntimeError("variable compile failed: " + r["err"])
+        return recs
     recs = []
     for c, f2, fea in layout_exec.compile_sequence(case):
         rec = layout_exec.kern_record(c, f2, c["cid"])
